@@ -84,7 +84,7 @@ Path = namedtuple('Path', 'events facts store ret exit trace entry_fn')
 
 
 class Engine:
-    def __init__(self, facts, *, max_depth=6, max_visits=2, max_paths=20000,
+    def __init__(self, facts, *, max_depth=6, max_visits=3, max_paths=20000,
                  inline_filter=None, fanout_traits=()):
         self.F = facts
         self.max_depth = max_depth
